@@ -3,6 +3,7 @@ Lemmas for C12, part 30 (whole sessions): reads beyond the end of the card — t
 (or stops streaming), the driver's token wait times out.
 -/
 import Sdmmc.Lemmas.SdSessionExpand
+import Sdmmc.Lemmas.SdCardSim2Refuse
 
 namespace Sdmmc.Lemmas.SdSession
 open Sdmmc.Model Sdmmc.Spec.Card Sdmmc.Model.Sd Sdmmc.Lemmas.Sd Sdmmc.Gen Sdmmc.Lemmas.SdCardSim
@@ -214,13 +215,13 @@ theorem read_multi_oor_start (s : St Card) (hS : Settled s.bus)
 a card satisfying the session invariant: `TimeoutReadBuffer`; the invariant — same store, no
 violation — still holds, so the session can go on.  The card is left busy only if CMD12 was sent
 (`n ≠ 1`). -/
-theorem callOp_read_oor (kind : Kind) (csd : List UInt8) (ncr nac busy : Nat)
+theorem callOp_read_oor (kind : Kind) (csd : List UInt8) (ncr nac busy gap : Nat)
     (hncr : ncr ≤ DEFAULT_COMMAND_RETRIES) (hnac : nac ≤ DEFAULT_READ_RETRIES)
     (st : Store) (hst : ∀ j, (st j).length = 512) (s : St Card)
-    (hI : SessInv kind csd ncr nac busy st s) (hbl : s.bus.busyLeft ≤ DEFAULT_COMMAND_RETRIES)
+    (hI : SessInv kind csd ncr nac busy gap st s) (hbl : s.bus.busyLeft ≤ DEFAULT_COMMAND_RETRIES)
     (n idx : Nat) (hn0 : n ≠ 0) (hadr : idx < addrLimit kind) (hoor : capacityOfCsd csd < idx + n) :
     ∃ s', callOp cardBus (.read n idx) s = (.err .TimeoutReadBuffer, s') ∧
-      SessInv kind csd ncr nac busy st s' ∧ s'.bus.busyLeft = (if n = 1 then 0 else busy) ∧
+      SessInv kind csd ncr nac busy gap st s' ∧ s'.bus.busyLeft = (if n = 1 then 0 else busy) ∧
       s'.useCrc = s.useCrc := by
   have hS := hI.settled
   have hncr' : s.bus.ncr ≤ DEFAULT_COMMAND_RETRIES := by rw [hI.ncrEq]; exact hncr
@@ -229,7 +230,7 @@ theorem callOp_read_oor (kind : Kind) (csd : List UInt8) (ncr nac busy : Nat)
     rw [hI.ct, hI.kindEq]; exact addressable_of_limit kind idx hadr
   have hlen : ∀ j, (getBlock s.bus j).length = 512 := fun j => by rw [hI.mem]; exact hst j
   have key : ∀ (s' : St Card) (c' : Card), StAt s c' s' → c'.mem = s.bus.mem → Unchanged s.bus c' →
-      SdCardSim2.Settled c' → SessInv kind csd ncr nac busy st s' := by
+      SdCardSim2.Settled c' → SessInv kind csd ncr nac busy gap st s' := by
     intro s' c' a hm hu hset
     refine hI.step ⟨by rw [a.1]; exact hu, by rw [a.1]; exact hset, a.2.1, a.2.2.1⟩ (fun j => ?_)
     rw [a.1, getBlock_congr hm]; exact hI.mem j
@@ -249,5 +250,29 @@ theorem callOp_read_oor (kind : Kind) (csd : List UInt8) (ncr nac busy : Nat)
       refine ⟨s', ?_, key s' _ a rfl (Unchanged.refl _) ⟨hS.1, hS.2, hS.3, hS.4, rfl, rfl⟩,
         by rw [a.1]; exact hI.busyEq, a.2.2.1⟩
       unfold callOp; dsimp only; rw [bind_err h]
+
+/-- A multiple-block write that starts inside the card and runs over its end, on a card satisfying
+the session invariant: `WriteError`; the blocks inside the card are stored (the abstract store
+takes exactly those), the stop sequence has been sent, and the invariant holds again — no
+violation, card settled and not busy — so the session can go on. -/
+theorem callOp_write_oor (kind : Kind) (csd : List UInt8) (ncr nac busy gap : Nat)
+    (hncr : ncr ≤ DEFAULT_COMMAND_RETRIES) (hbusy : busy ≤ DEFAULT_WRITE_RETRIES) (hgap : gap ≤ 1)
+    (st : Store) (s : St Card)
+    (hI : SessInv kind csd ncr nac busy gap st s) (hbl : s.bus.busyLeft ≤ DEFAULT_COMMAND_RETRIES)
+    (blocks : List Bytes) (idx : Nat) (hn1 : blocks.length ≠ 1) (hadr : idx < addrLimit kind)
+    (hidx : idx < capacityOfCsd csd) (hoor : capacityOfCsd csd < idx + blocks.length)
+    (hlen : ∀ b ∈ blocks, b.length = 512) :
+    ∃ s', callOp cardBus (.write blocks idx) s = (.err .WriteError, s') ∧
+      SessInv kind csd ncr nac busy gap (writeStore st idx (blocks.take (capacityOfCsd csd - idx))) s' ∧
+      s'.bus.busyLeft = 0 ∧ s'.useCrc = s.useCrc := by
+  have hS := hI.settled
+  obtain ⟨s', h, hm, hb, o⟩ := write_multi_oor_sum s hS hbl (by rw [hI.ncrEq]; exact hncr)
+    (by rw [hI.busyEq]; exact hbusy) (by rw [hI.gapEq]; exact hgap) (fun h => by rw [← hI.crc]; exact h) blocks idx hn1
+    (by rw [hI.ct, hI.kindEq]; exact addressable_of_limit kind idx hadr) (by rw [hI.capEq]; exact hidx)
+    (by rw [hI.capEq]; exact hoor) hlen
+  refine ⟨s', ?_, hI.step o (fun j => ?_), hb, o.useCrc⟩
+  · unfold callOp; dsimp only; rw [bind_err h]
+  · show getBlock s'.bus j = writeStore st idx _ j
+    rw [getBlock_writeMem s.bus s'.bus idx _ hm, hI.mem, hI.capEq]; rfl
 
 end Sdmmc.Lemmas.SdSession
